@@ -2,8 +2,8 @@
 //
 // Op line (one complete spend attempt of one deposit output):
 //
-//	spend <p2sh|p2wsh> <depositor> <extra|-> <blinding> <walletPKH> <refundPKH> <locktime4>
-//	      <sk> <pk> <hash160(pk)> <flavor> <txLocktime> <sequence> <scriptHash> <warm>
+//	spend <p2sh|p2wsh|nested> <depositor> <extra|-> <blinding> <walletPKH> <refundPKH> <locktime4>
+//	      <sk> <pk> <hash160(pk)> <flavor> <txLocktime> <sequence> <scriptHash> <warm> <scriptHash2>
 //
 // all byte strings in hex.  <scriptHash> is HASH160 (p2sh) / SHA256 (p2wsh) of the script the
 // bridge specification prescribes for these fields (computed by the generator with an independent
@@ -11,6 +11,7 @@
 // functions the Lean model needs.  flavor: good | bad (signature over another digest) | highs |
 // empty | ht2 (SIGHASH_NONE) | ht0 (invalid hash type) | wrongamt (engine told amount+1).
 //
+// nested = P2SH-wrapped P2WSH; <scriptHash2> = HASH160 of the P2WSH program (else -).
 // <warm> = - | <field>:<hex>: before the script of this deposit is built, Script() is called (in the
 // same process) for a sibling deposit that differs only in that field (lt, blind, wpkh, rpkh, dep,
 // extra) — Script() must be a pure function of the deposit, the model ignores the token.
@@ -102,10 +103,7 @@ func genKey(r *hx.Rng) *btcec.PrivateKey {
 func gen(r *hx.Rng, n int, tier string) []string {
 	var ops []string
 	for i := 0; i < n; i++ {
-		kind := "p2sh"
-		if r.Bool() {
-			kind = "p2wsh"
-		}
+		kind := hx.Pick(r, []string{"p2sh", "p2sh", "p2wsh", "p2wsh", "nested"})
 		depositor := r.Bytes(20)
 		switch r.Intn(12) {
 		case 0: // leading zero nibbles / bytes (the address string starts with 0x0… or 00…)
@@ -186,7 +184,7 @@ func gen(r *hx.Rng, n int, tier string) []string {
 		if r.Chance(1, 4) {
 			flavor = hx.Pick(r, []string{"bad", "highs", "empty", "ht2", "ht0", "wrongamt"})
 		}
-		var sh []byte
+		var sh, sh2 []byte
 		if len(depositor) == 20 {
 			s := specScript(depositor, extra, blinding, wpkh, rpkh, le4(lt))
 			if kind == "p2sh" {
@@ -194,6 +192,9 @@ func gen(r *hx.Rng, n int, tier string) []string {
 			} else {
 				h := sha256.Sum256(s)
 				sh = h[:]
+				if kind == "nested" { // HASH160 of the P2WSH program that is the P2SH redeem script
+					sh2 = btcutil.Hash160(append([]byte{0x00, 0x20}, sh...))
+				}
 			}
 		} else if kind == "p2sh" {
 			sh = make([]byte, 20)
@@ -219,7 +220,7 @@ func gen(r *hx.Rng, n int, tier string) []string {
 		}
 		ops = append(ops, strings.Join([]string{"spend", kind, hx2(depositor), hx2(extra), hx2(blinding),
 			hx2(wpkh), hx2(rpkh), hx2(le4(lt)), hx2(priv.Serialize()), hx2(pk), hx2(pkh), flavor,
-			fmt.Sprint(txLock), fmt.Sprint(seq), hx2(sh), warm}, " "))
+			fmt.Sprint(txLock), fmt.Sprint(seq), hx2(sh), warm, hx2(sh2)}, " "))
 	}
 	return ops
 }
@@ -258,7 +259,7 @@ func errClass(err error) string {
 
 func exec(op string) (string, string) {
 	f := strings.Fields(op)
-	if len(f) != 16 || f[0] != "spend" {
+	if len(f) != 17 || f[0] != "spend" {
 		return "bad-op", "bad"
 	}
 	kind := f[1]
@@ -313,10 +314,17 @@ func exec(op string) (string, string) {
 	}
 
 	var pkScript bitcoin.Script
-	if kind == "p2sh" {
+	var program bitcoin.Script // nested: the P2WSH program is the P2SH redeem script
+	switch kind {
+	case "p2sh":
 		pkScript, err = bitcoin.PayToScriptHash(bitcoin.ScriptHash(script))
-	} else {
+	case "p2wsh":
 		pkScript, err = bitcoin.PayToWitnessScriptHash(bitcoin.WitnessScriptHash(script))
+	default:
+		program, err = bitcoin.PayToWitnessScriptHash(bitcoin.WitnessScriptHash(script))
+		if err == nil {
+			pkScript, err = bitcoin.PayToScriptHash(bitcoin.ScriptHash(program))
+		}
 	}
 	if err != nil {
 		return "err:lock", "lockerr"
@@ -371,6 +379,13 @@ func exec(op string) (string, string) {
 		tx.TxIn[0].SignatureScript = ss
 	} else {
 		tx.TxIn[0].Witness = wire.TxWitness{sigBytes, pk, script}
+		if kind == "nested" {
+			ss, err := txscript.NewScriptBuilder().AddData(program).Script()
+			if err != nil {
+				return "err:scriptsig", "sserr"
+			}
+			tx.TxIn[0].SignatureScript = ss
+		}
 	}
 	amount := baseAmount
 	if flavor == "wrongamt" {
